@@ -524,37 +524,50 @@ func aliasTargets(obj *types.TypeName) []string {
 	return out
 }
 
-func (l *loaded) aliasHidden(syms []string) []string {
+// aliasHidden returns the symbol strings of the pattern that name a type which the analysed
+// package reaches through an alias declared in a third package while the type's own package
+// is not in the package's index, and the positions ("file:offset") of the identifiers that
+// use such an alias.
+func (l *loaded) aliasHidden(syms []string) ([]string, []string) {
 	out := []string{}
+	uses := []string{}
 	if len(syms) == 0 {
-		return out
+		return out, uses
 	}
-	reach := map[string]bool{}
-	for _, obj := range l.info.Uses {
+	want := map[string]bool{}
+	for _, s := range syms {
+		want[s] = true
+	}
+	hidden := map[string]bool{}
+	checked := map[string]bool{}
+	for id, obj := range l.info.Uses {
 		tn, ok := obj.(*types.TypeName)
 		if !ok || !tn.IsAlias() || tn.Pkg() == nil || tn.Pkg() == l.pkg {
 			continue
 		}
 		for _, t := range aliasTargets(tn) {
-			reach[t] = true
+			if !want[t] {
+				continue
+			}
+			if !checked[t] {
+				checked[t] = true
+				dot := strings.LastIndex(t, ".")
+				if dot >= 0 && !l.inIndex(t[:dot], t[dot+1:]) {
+					hidden[t] = true
+				}
+			}
+			if hidden[t] {
+				p := l.fset.Position(id.Pos())
+				uses = append(uses, fmt.Sprintf("%s:%d", p.Filename, p.Offset))
+			}
 		}
 	}
-	seen := map[string]bool{}
-	for _, s := range syms {
-		if !reach[s] || seen[s] {
-			continue
-		}
-		seen[s] = true
-		dot := strings.LastIndex(s, ".")
-		if dot < 0 {
-			continue
-		}
-		if !l.inIndex(s[:dot], s[dot+1:]) {
-			out = append(out, s)
-		}
+	for t := range hidden {
+		out = append(out, t)
 	}
 	sort.Strings(out)
-	return out
+	sort.Strings(uses)
+	return out, uses
 }
 
 type caseOut struct {
@@ -575,13 +588,81 @@ type caseOut struct {
 	// the analysed package does not contain, although the package refers to that type through
 	// an alias declared in a third package (known finding alias-cross-package).
 	AliasHidden []string `json:"alias_hidden"`
-	// Only when Could is false and AliasHidden is non-empty: would CouldMatchAny accept the
+	AliasUses   []string `json:"alias_uses"`
+	// Only when AliasHidden is non-empty: would CouldMatchAny accept the
 	// package if the index resolved the hidden symbols (CouldIfVisible), and what code.Matches
-	// yields when the symbol-index rejection is switched off (SymbolsPattern = Any), i.e. what the
-	// other two filters let through (FilteredNoIdx).  The pair is attributed to the known
-	// finding only if CouldIfVisible holds and FilteredNoIdx equals Brute.
+	// yields when the two index-based filters are switched off (SymbolsPattern = Any, no
+	// RootCallSymbols), i.e. what the entry-kind filter lets through (FilteredNoIdx).  The pair is attributed to the known
+	// finding only if CouldIfVisible holds, FilteredNoIdx equals Brute and every dropped match
+	// contains one of AliasUses.
 	CouldIfVisible bool     `json:"could_if_visible"`
 	FilteredNoIdx  []string `json:"filtered_noidx"`
+	// Facts: how the real index of the package resolves every IndexSymbol of the pattern's
+	// SymbolsPattern and RootCallSymbols ("<hexpath> <hextype> <hexident> none|func|other"); input of
+	// the model's `could` operation, whose result is compared with Could.
+	Facts []string `json:"facts"`
+}
+
+// indexOf returns the *typeindex.Index of the pass (a type of an internal package: found by
+// its methods, used through reflection).
+func (l *loaded) indexOf() reflect.Value {
+	for _, v := range l.pass.ResultOf {
+		rv := reflect.ValueOf(v)
+		if rv.IsValid() && rv.MethodByName("Selection").IsValid() && rv.MethodByName("Calls").IsValid() {
+			return rv
+		}
+	}
+	panic("no type index in the pass")
+}
+
+// resolve asks the real index for a symbol the way code.CouldMatchAny / code.Matches do.
+func (l *loaded) resolve(s pattern.IndexSymbol) string {
+	idx := l.indexOf()
+	var out []reflect.Value
+	if s.Type == "" {
+		out = idx.MethodByName("Object").Call([]reflect.Value{reflect.ValueOf(s.Path), reflect.ValueOf(s.Ident)})
+	} else {
+		out = idx.MethodByName("Selection").Call([]reflect.Value{reflect.ValueOf(s.Path), reflect.ValueOf(s.Type), reflect.ValueOf(s.Ident)})
+	}
+	obj, _ := out[0].Interface().(types.Object)
+	if obj == nil {
+		return "none"
+	}
+	if _, ok := obj.(*types.Func); ok {
+		return "func"
+	}
+	return "other"
+}
+
+func indexSymbols(n pattern.Node, out *[]pattern.IndexSymbol) {
+	switch v := n.(type) {
+	case pattern.Or:
+		for _, c := range v.Nodes {
+			indexSymbols(c, out)
+		}
+	case pattern.And:
+		for _, c := range v.Nodes {
+			indexSymbols(c, out)
+		}
+	case pattern.IndexSymbol:
+		*out = append(*out, v)
+	}
+}
+
+func (l *loaded) facts(q pattern.Pattern) []string {
+	var syms []pattern.IndexSymbol
+	indexSymbols(q.SymbolsPattern, &syms)
+	syms = append(syms, q.RootCallSymbols...)
+	seen := map[pattern.IndexSymbol]bool{}
+	out := []string{}
+	for _, s := range syms {
+		if seen[s] {
+			continue
+		}
+		seen[s] = true
+		out = append(out, fmt.Sprintf("%s %s %s %s", hx(s.Path), hx(s.Type), hx(s.Ident), l.resolve(s)))
+	}
+	return out
 }
 
 // evalSymbols evaluates a SymbolsPattern formula like code.CouldMatchAny does, asking the
@@ -635,7 +716,7 @@ func (l *loaded) runCase(pi int, q pattern.Pattern, universe map[string]bool) ca
 			co.Own = true
 		}
 	}
-	co.AliasHidden = l.aliasHidden(syms)
+	co.AliasHidden, co.AliasUses = l.aliasHidden(syms)
 	func() {
 		defer func() {
 			if r := recover(); r != nil {
@@ -643,6 +724,7 @@ func (l *loaded) runCase(pi int, q pattern.Pattern, universe map[string]bool) ca
 			}
 		}()
 		co.Could = code.CouldMatchAny(l.pass, q)
+		co.Facts = l.facts(q)
 		for n, m := range code.Matches(l.pass, q) {
 			co.FRaw++
 			st := l.canonState(m.State)
@@ -677,7 +759,7 @@ func (l *loaded) runCase(pi int, q pattern.Pattern, universe map[string]bool) ca
 	}
 	co.Filtered = uniqSorted(co.Filtered)
 	co.Brute = uniqSorted(co.Brute)
-	if !co.Could && len(co.AliasHidden) > 0 && co.FPanic == "" {
+	if len(co.AliasHidden) > 0 && co.FPanic == "" {
 		hidden := map[string]bool{}
 		for _, s := range co.AliasHidden {
 			hidden[s] = true
@@ -691,6 +773,7 @@ func (l *loaded) runCase(pi int, q pattern.Pattern, universe map[string]bool) ca
 			co.CouldIfVisible = l.evalSymbols(q.SymbolsPattern, hidden)
 			q2 := q
 			q2.SymbolsPattern = pattern.Any{}
+			q2.RootCallSymbols = nil // the index cannot resolve the hidden symbols for the call-site enumeration either
 			co.FilteredNoIdx = []string{}
 			for n, m := range code.Matches(l.pass, q2) {
 				st := l.canonState(m.State)
@@ -787,6 +870,20 @@ func main() {
 			os.Exit(3)
 		}
 		byID[jp.ID] = l
+	}
+	// which syntax-node kinds the analysed packages contain (evidence: coverage of the universe)
+	for _, jp := range j.Packages {
+		l := byID[jp.ID]
+		kinds := map[string]int{}
+		for _, f := range l.files {
+			ast.Inspect(f, func(n ast.Node) bool {
+				if n != nil {
+					kinds[kindOf(n)]++
+				}
+				return true
+			})
+		}
+		enc(map[string]any{"kind": "pkg", "id": jp.ID, "kinds": kinds})
 	}
 	analyse := j.Analyse
 	if len(analyse) == 0 {
